@@ -466,7 +466,9 @@ func joinOperator(v interface{}, operator string) (string, error) {
 		}
 		ops := make([]string, len(arr))
 		for i := 0; i < len(arr); i++ {
-			ope, err := parseOperand(arr[i], false, operator == " != ")
+			// only the unary form {"not": [x]} is a negation; with two or more operands "not" is
+			// the != operator and its operands are grouped like those of any other operator.
+			ope, err := parseOperand(arr[i], false, operator == " != " && len(arr) == 1)
 			if err != nil {
 
 				return "", err
